@@ -48,6 +48,8 @@ func runC20(c *Ctx) {
 	c.guard("R20-book", func() { c20Book(c) })
 	r.Rule("R20-key", "the key a book reply is filed under and looked up with keeps the leading FEN fields the legality of the reply depends on (placement and side to move for every book; castling rights and en passant target too for books built from played lines)", 2)
 	c.guard("R20-key", func() { c20Key(c) })
+	r.Rule("R20-squares", "a counted loop over squares in an evaluator visits a set of squares closed under the board mirror (a necessary condition of colour-blindness: a per-square term summed over an asymmetric range treats the two sides differently)", 1)
+	c.guard("R20-squares", func() { c20Squares(c) })
 }
 
 func inEnginePkgs(fn *ssa.Function) bool {
